@@ -6,9 +6,11 @@
 
      lines_of            str::lines() (split at '\n'; one '\r' directly before a
                          '\n' is stripped; a '\r' at the very end is kept)
-     lex_alpha           lexer::lex (per-line offset bookkeeping
+     lex_alpha           lexer::lex of the pinned commit (per-line offset bookkeeping
                          [offset += line.chars().count() + 1], the zero-byte
                          placeholder E101 with line_offset 1)
+     lines_term, lex_lines_fixed, lex_alpha_fixed
+                         lexer::lex after the CRLF repair (end of this file)
      lex_line_fuel       lexer::lex_line, the outer [while let Some(..) = iter.next()]
      lex_step            the [match x] of lex_line, position independent: all
                          offsets it returns are relative to the first character
@@ -550,3 +552,49 @@ Definition zero_byte_tok : tok := mk KError E101 None [] 0 0 1 1.
 
 Definition lex_alpha (src : list N) : list tok :=
   lex_lines (lines_of src) 0 0 ++ (if is_nil src then [zero_byte_tok] else []).
+
+(* ------------------------------------------------------------------ *)
+(* The repaired lexer::lex (commit "fix: count the carriage return of CRLF
+   line ends in token offsets").  lex_line is unchanged; only the bookkeeping
+   of the offset of each line differs:
+
+     start_of_line = byte offset of the line within the source
+     offset += start_of_line - end_of_previous_line   (the terminator, 1 or 2 one-byte chars)
+     lex_line(line, .., offset, 1 + i, ..)
+     offset += line.chars().count()
+     end_of_previous_line = start_of_line + line.len()
+
+   [lines_term] is str::lines() together with the number of characters of the
+   terminator that FOLLOWS each line: 1 for LF, 2 for CR LF, 0 for a final line
+   without terminator.  The gap [start_of_line - end_of_previous_line] the code
+   adds before lexing a line is the terminator of the line before it (0 before
+   the first line), so adding it right after the previous line, as
+   [lex_lines_fixed] does, gives every call of lex_line the same offset. *)
+
+Fixpoint lines_term (cs : list N) : list (list N * N) :=
+  match cs with
+  | [] => []
+  | c :: r =>
+      if c =? 10 then ([], 1) :: lines_term r
+      else if (c =? 13) && match r with n :: _ => n =? 10 | [] => false end then
+        (* CR LF: [lines_term r] starts with the empty line terminated by that LF *)
+        match lines_term r with
+        | (l, t) :: ls => (l, 1 + t) :: ls
+        | [] => []
+        end
+      else match lines_term r with
+           | [] => [([c], 0)]
+           | (l, t) :: ls => (c :: l, t) :: ls
+           end
+  end.
+
+(* [offset] character offset of the first line of [ls]; [i] index of enumerate(). *)
+Fixpoint lex_lines_fixed (ls : list (list N * N)) (offset i : N) : list tok :=
+  match ls with
+  | [] => []
+  | (l, term) :: r =>
+      lex_line l offset (1 + i) ++ lex_lines_fixed r (offset + len l + term) (i + 1)
+  end.
+
+Definition lex_alpha_fixed (src : list N) : list tok :=
+  lex_lines_fixed (lines_term src) 0 0 ++ (if is_nil src then [zero_byte_tok] else []).
